@@ -9,7 +9,7 @@ ATOMS = {
     "LF": "\n", "CR": "\r", "TAB": "\t", "SP": " ", "VT": "\x0b", "FF": "\x0c",
     "NBSP": "\u00a0", "IDSP": "\u3000", "LSEP": "\u2028", "PSEP": "\u2029", "NEL": "\u0085",
     "ENSP": "\u2002", "EACUTE": "\u00e9", "CJK": "\u4e2d", "EMOJI": "\U0001F600", "COMB": "\u0301",
-    "UUML": "\u00fc", "KANA": "\u30ab",
+    "UUML": "\u00fc", "KANA": "\u30ab", "ARDIGIT": "\u0663", "FWDIGIT": "\uff13",
 }
 TRIVIA = ("WS", "LCOM", "BCOM", "DOC")
 
